@@ -129,8 +129,10 @@ theorem inv_rotate {cfg : Cfg} {s : St} {d : Disk} (h : Inv cfg s d) {s' : St} {
       · exact r2
       · show Holds (lookup (d.journals.set s.nextFile ⟨[], []⟩) s.nextFile) _
         rw [lookup_set, if_pos rfl]
-        show (⟨[], []⟩ : LogFile Grp).all = [] ++ inflight s.w
-        rw [hinfl]; rfl
+        show JournalHolds _ (⟨[], []⟩ : LogFile Grp) ([] ++ inflight s.w) s.seq
+        rw [hinfl]
+        exact ⟨fun x hx => (by cases hx), fun x hx _ => (by cases hx), fun x hx => (by cases hx), fun _ => rfl,
+          fun _ x hx => (by cases hx)⟩
       · intro p hp
         rcases (mem_set hnd).1 hp with rfl | ⟨hp0, _⟩
         · exact Nat.le_refl _
@@ -144,10 +146,10 @@ theorem inv_rotate {cfg : Cfg} {s : St} {d : Disk} (h : Inv cfg s d) {s' : St} {
         cases hw : s.w <;> rw [hw] at hq <;> simp_all [WPc.quiet]
       · apply frozenOK_iff.2
         refine Or.inr ⟨s.mem, s.jcur, rfl, rfl, hjlt, Nat.le_refl _, hmem, ?_, ?_, ?_⟩
-        · intro g hg
-          simp only [List.nil_append] at hg
-          rw [hinfl] at hg
-          cases hg
+        · intro p hp hpn g hg
+          rcases (mem_set hnd).1 hp with rfl | ⟨hp0, hne⟩
+          · cases hg
+          · exact absurd hpn hne
         · intro p hp hpn
           rcases (mem_set hnd).1 hp with rfl | ⟨hp0, _⟩
           · simp only at hpn; omega
@@ -253,7 +255,14 @@ theorem inv_flushStart {cfg : Cfg} {s : St} {d : Disk} (h : Inv cfg s d) {s' : S
             refine ⟨fun n hn => ?_, fun t ht => (by cases ht), fun hk => (by rcases hk with hk | hk <;> cases hk)⟩
             simp only [List.mem_singleton] at hn
             subst hn
-            exact ⟨Or.inr ⟨f1, fun p hp hpn => by rw [f5 p hp hpn, hfz0]⟩, fun x hx => by cases hx⟩
+            refine ⟨Or.inr ⟨f1, fun p hp hpn g hg => ?_⟩, fun x hx => by cases hx⟩
+            obtain ⟨_, b, c, _⟩ := f5 p hp hpn
+            rw [hfz0] at b c
+            refine ⟨fun hm => (by cases b g hg hm), ?_⟩
+            show g.fin ≤ s.seq + 1
+            rcases c g hg with h1 | h1
+            · cases h1
+            · omega
       · -- a table for the frozen buffer
         rename_i hne
         have hfzne : fz ≠ [] := by simpa using hne
